@@ -27,6 +27,7 @@ func init() {
 		Check:      check,
 		NonTrivial: nonTrivial,
 		Rule: "op sequences on up to 4 registers (setz.Bits, setz.Bitmap, dsz.Bits) over values 0..260 (+boundaries 63/64/65/127/128…, rare huge values for Contains/Remove): add/remove/contains/grow/len/cap/clone, diff/intersect/merge between registers of any two word lengths (incl. self), resumable iterators interleaved with mutations, Range/All with early stop, `layout` (word counts and overlapping backing arrays of the private word slices, read by reflection, compared with the one-memory model); " +
+			"stream `large` (≈ 0.7 % of the cases): registers of 7…65 words (multiples of 8 and ±1; up to 1096 words = values up to 70000 in a smaller share) filled completely / all but one / with ~1000 strided elements / only in the last block by the bulk element ops addn/removen, then Diff/Intersect/Merge between them with Len/blen/Cap before and after, iterators, Range/All with early stop, Contains at the edges, Clone + layout; String() of all three types; " +
 			"non-trivial = at least one bulk operation, or an enumeration (iterator / Range / All) that crosses a word boundary, in a sequence of ≥ 6 ops; distinct by hash of the op list",
 		Classify: classify,
 		Parallel: true,
@@ -175,6 +176,40 @@ func impl(c core.Case) []string {
 					return "bad-op"
 				}
 				return showLayout(regs)
+			case "addn", "removen": // count element operations on start, start+d, …; answer = number of `true`
+				if len(t) != 5 {
+					return "bad-op"
+				}
+				r := getReg(t[1])
+				a, e1 := strconv.ParseUint(t[2], 10, 32)
+				d, e2 := strconv.ParseUint(t[3], 10, 32)
+				cnt, e3 := strconv.ParseUint(t[4], 10, 32)
+				if r == nil || e1 != nil || e2 != nil || e3 != nil || cnt == 0 {
+					return "bad-op"
+				}
+				hits := 0
+				for j := uint64(0); j < cnt; j++ {
+					n := uint(a + j*d)
+					var ch bool
+					switch t[0] + ":" + r.kind {
+					case "addn:bits":
+						ch = r.bits.Add(n)
+					case "addn:bitmap":
+						ch = r.bm.Add(n)
+					case "addn:dsz":
+						r.d.Add(n)
+					case "removen:bits":
+						ch = r.bits.Remove(n)
+					case "removen:bitmap":
+						ch = r.bm.Remove(n)
+					case "removen:dsz":
+						r.d.Remove(n)
+					}
+					if ch {
+						hits++
+					}
+				}
+				return strconv.Itoa(hits)
 			case "add", "remove", "contains", "grow":
 				if len(t) != 3 {
 					return "bad-op"
@@ -217,6 +252,24 @@ func impl(c core.Case) []string {
 					return "ok"
 				}
 				return "bad-op"
+			case "string":
+				if len(t) != 2 {
+					return "bad-op"
+				}
+				r := getReg(t[1])
+				if r == nil {
+					return "bad-op"
+				}
+				var str string
+				switch r.kind {
+				case "bits":
+					str = r.bits.String()
+				case "bitmap":
+					str = r.bm.String()
+				default:
+					str = r.d.String()
+				}
+				return strings.ReplaceAll(str, "\n", "|")
 			case "len", "blen", "cap", "iterall":
 				if len(t) != 2 {
 					return "bad-op"
@@ -410,7 +463,183 @@ var kindSets = [][]string{
 	{"bitmap", "bits"},
 }
 
+// genLarge: registers with many words — word counts that are multiples of 8 (and ±1), hundreds
+// of words, values up to 70000 — filled completely, almost completely or with ~1000 strided
+// elements by the bulk element ops `addn`/`removen`, then bulk operations between them and
+// every observation (Len/blen/Cap, Iter, Range/All with early stop, Contains at the edges).
+func genLarge(r *core.Rand, tier string) core.Case {
+	kinds := [][]string{
+		{"bits", "bits", "bitmap"}, {"bitmap", "bitmap"}, {"bits", "bitmap", "bits"}, {"bits", "dsz", "bitmap"}, {"dsz"}, {"bits", "bits"},
+	}[r.Pick(30, 15, 20, 15, 5, 15)]
+	lines := []string{"@ C16 " + strings.Join(kinds, " ")}
+	emit := func(f string, a ...any) { lines = append(lines, fmt.Sprintf(f, a...)) }
+	nr := len(kinds)
+	words := func() int {
+		w := []int{8, 8, 16, 16, 24, 32, 40, 64, 7, 9, 15, 17, 31, 33, 63, 65}
+		if tier == "thorough" {
+			w = append(w, 128, 256, 512, 1024, 1094, 1096)
+		}
+		switch r.Pick(88, 8, 4) {
+		case 1:
+			return []int{128, 256, 264}[r.Intn(3)]
+		case 2:
+			return []int{1024, 1094, 1096}[r.Intn(3)] // values up to 70000
+		}
+		return w[r.Intn(len(w))]
+	}
+	wl := make([]int, nr)
+	same := r.Chance(45)
+	w0 := words()
+	for i := 0; i < nr; i++ {
+		w := w0
+		if !same {
+			w = words()
+		}
+		wl[i] = w
+		bitsN := w * 64
+		if r.Chance(60) {
+			emit("grow %d %d", i, bitsN-1-r.Intn(64)) // one allocation of exactly w words
+		}
+		limit := 4096 // elements per addn in the light (quick) share
+		if tier == "thorough" {
+			limit = 20000
+		}
+		switch r.Pick(34, 14, 30, 10, 12) {
+		case 0: // completely full
+			if bitsN <= limit {
+				emit("addn %d 0 1 %d", i, bitsN)
+			} else {
+				emit("grow %d %d", i, bitsN-1)
+				emit("addn %d %d 1 1000", i, bitsN-1000)
+			}
+		case 1: // full but for one or two numbers
+			if bitsN <= limit {
+				emit("addn %d 0 1 %d", i, bitsN)
+				emit("remove %d %d", i, []int{0, 63, 64, bitsN - 1, bitsN - 64, bitsN / 2}[r.Intn(6)])
+			} else {
+				emit("addn %d %d 1 1000", i, bitsN-1000)
+			}
+		case 2: // ~1000 strided elements
+			step := []int{1, 2, 3, 7, 63, 64, 65}[r.Intn(7)]
+			cnt := 1000
+			if cnt*step > bitsN {
+				cnt = bitsN / step
+			}
+			if cnt < 1 {
+				cnt = 1
+			}
+			start := 0
+			if bitsN-cnt*step > 0 && r.Bool() {
+				start = bitsN - cnt*step
+			}
+			emit("addn %d %d %d %d", i, start, step, cnt)
+			emit("add %d %d", i, bitsN-1)
+		case 3: // last block only (the words behind the last multiple of 8)
+			lo := (w &^ 7) * 64
+			if lo >= bitsN {
+				lo = bitsN - 512
+			}
+			if lo < 0 {
+				lo = 0
+			}
+			emit("addn %d %d 1 %d", i, lo, bitsN-lo)
+		default: // empty, but grown
+			emit("grow %d %d", i, bitsN-1)
+		}
+		emit("len %d", i)
+		if kinds[i] != "dsz" {
+			emit("blen %d", i)
+		}
+		emit("cap %d", i)
+	}
+	isSet := func(i int) bool { return kinds[i] != "dsz" }
+	n := r.Range(3, 8)
+	for k := 0; k < n; k++ {
+		x := r.Intn(nr)
+		bitsN := wl[x] * 64
+		switch r.Pick(34, 10, 10, 8, 8, 8, 6, 8, 8) {
+		case 0:
+			a, b := r.Intn(nr), r.Intn(nr)
+			if !isSet(a) || !isSet(b) {
+				continue
+			}
+			emit("%s %d %d", []string{"diff", "intersect", "merge"}[r.Intn(3)], a, b)
+			emit("len %d", a)
+			emit("blen %d", a)
+			emit("len %d", b)
+			if wl[b] > wl[a] {
+				wl[a] = wl[b]
+			}
+		case 1:
+			emit("removen %d %d %d %d", x, []int{0, 1, 63, bitsN / 2}[r.Intn(4)], []int{1, 2, 64, 65}[r.Intn(4)], []int{1, 64, 500, 1000}[r.Intn(4)])
+			emit("len %d", x)
+		case 2:
+			emit("addn %d %d %d %d", x, []int{0, 1, bitsN / 2}[r.Intn(3)], []int{1, 3, 64}[r.Intn(3)], []int{64, 512, 1000}[r.Intn(3)])
+			emit("len %d", x)
+		case 3:
+			if wl[x] <= 72 {
+				emit("iterall %d", x)
+			} else {
+				emit("iter 0 %d", x)
+				emit("next 0")
+				emit("value 0")
+				emit("next 0")
+				emit("value 0")
+			}
+		case 4:
+			if isSet(x) {
+				op := "range"
+				if kinds[x] == "bits" && r.Bool() {
+					op = "all"
+				}
+				stop := []int{-1, 63, 64, 511, 512, bitsN - 1, bitsN / 2}[r.Intn(7)]
+				if wl[x] > 72 && stop < 0 {
+					stop = 512
+				}
+				emit("%s %d %d", op, x, stop)
+			}
+		case 5:
+			emit("contains %d %d", x, []int{0, 511, 512, bitsN - 1, bitsN, bitsN + 63}[r.Intn(6)])
+		case 6:
+			emit("%s %d %d", []string{"add", "remove"}[r.Intn(2)], x, []int{0, 511, 512, 513, bitsN - 1, bitsN}[r.Intn(6)])
+			emit("len %d", x)
+		case 7:
+			var ds []int
+			for j, kd := range kinds {
+				if kd == "bitmap" {
+					ds = append(ds, j)
+				}
+			}
+			if len(ds) > 0 && isSet(x) {
+				d := ds[r.Intn(len(ds))]
+				emit("clone %d %d", d, x)
+				wl[d] = wl[x]
+				emit("len %d", d)
+				if layoutOK {
+					emit("layout")
+				}
+			}
+		default:
+			emit("len %d", x)
+			emit("cap %d", x)
+		}
+	}
+	for i := 0; i < nr; i++ {
+		emit("len %d", i)
+	}
+	return core.Case{Lines: lines, Tag: "large"}
+}
+
 func gen(r *core.Rand, tier string) core.Case {
+	// large stream: ≈ 0.7 % of a quick run, 0.3 % of the far larger thorough budget (with tier == "thorough" — also used on anchor drift — the
+	// larger budget gives proportionally more of them and the bigger size classes are added)
+	share := 7
+	if tier == "thorough" {
+		share = 3 // 800 000 cases: ≈ 2 400 large ones with the bigger size classes
+	}
+	if r.Intn(1000) < share {
+		return genLarge(r, tier)
+	}
 	kinds := kindSets[r.Pick(24, 12, 18, 14, 10, 6, 6, 10)]
 	lines := []string{"@ C16 " + strings.Join(kinds, " ")}
 	nr := len(kinds)
@@ -535,7 +764,11 @@ func gen(r *core.Rand, tier string) core.Case {
 		case 11:
 			emit("value %d", r.Intn(2))
 		case 12:
-			emit("iterall %d", x)
+			if r.Chance(30) {
+				emit("string %d", x)
+			} else {
+				emit("iterall %d", x)
+			}
 		case 13, 14:
 			op := "range"
 			if kinds[x] == "bits" && r.Bool() {
@@ -617,6 +850,13 @@ func corpus() []core.Case {
 
 // ---------------------------------------------------------------- independent oracle
 
+func clip(s string) string {
+	if len(s) > 240 {
+		return s[:120] + " … " + s[len(s)-100:]
+	}
+	return s
+}
+
 type oset map[uint64]bool
 
 func (s oset) sorted() []uint64 {
@@ -670,9 +910,14 @@ func check(c core.Case, out []string) *core.Failure {
 		fail := func(key, want string) *core.Failure {
 			var st []string
 			for j, s := range sets {
+				if len(s) > 48 {
+					xs := s.sorted()
+					st = append(st, fmt.Sprintf("r%d(%s)=%d members %s…%s", j, kinds[j], len(xs), show64(xs[:6]), show64(xs[len(xs)-6:])))
+					continue
+				}
 				st = append(st, fmt.Sprintf("r%d(%s)=%s", j, kinds[j], show64(s.sorted())))
 			}
-			return &core.Failure{Key: key, Desc: fmt.Sprintf("op %d %q: implementation answered %q, a mathematical set answers %q; sets before the op: %s", i, c.Lines[i], o, want, strings.Join(st, " "))}
+			return &core.Failure{Key: key, Desc: fmt.Sprintf("op %d %q: implementation answered %q, a mathematical set answers %q; sets before the op: %s", i, c.Lines[i], clip(o), clip(want), strings.Join(st, " "))}
 		}
 		if o == "panic" || o == "dead" {
 			return fail("panic", "no panic")
@@ -687,6 +932,36 @@ func check(c core.Case, out []string) *core.Failure {
 		}
 		ri, _ := strconv.Atoi(t[1])
 		switch t[0] {
+		case "addn", "removen":
+			a, _ := strconv.ParseUint(t[2], 10, 32)
+			d, _ := strconv.ParseUint(t[3], 10, 32)
+			cnt, _ := strconv.ParseUint(t[4], 10, 32)
+			s := sets[ri]
+			hits := 0
+			for j := uint64(0); j < cnt; j++ {
+				n := a + j*d
+				if t[0] == "addn" {
+					if !s[n] {
+						hits++
+						s[n] = true
+					}
+					if int(n)+1 > minCap[ri] {
+						minCap[ri] = int(n) + 1
+					}
+				} else if s[n] {
+					hits++
+					delete(s, n)
+				}
+			}
+			if hits > 0 {
+				touch(ri)
+			}
+			if kinds[ri] == "dsz" {
+				hits = 0
+			}
+			if want := strconv.Itoa(hits); o != want {
+				return fail(t[0]+"-flag", want+" operations that changed membership")
+			}
 		case "add", "remove", "contains", "grow":
 			n, _ := strconv.ParseUint(t[2], 10, 64)
 			s := sets[ri]
@@ -818,6 +1093,14 @@ func check(c core.Case, out []string) *core.Failure {
 			if want := show64(sets[ri].sorted()); o != want {
 				return fail("iter", want)
 			}
+		case "string":
+			want := "{" + strings.Trim(show64(sets[ri].sorted()), "[]") + "}"
+			if kinds[ri] == "dsz" {
+				want += fmt.Sprintf("|Length: %d", len(sets[ri]))
+			}
+			if o != want {
+				return fail("string", want)
+			}
 		case "range", "all":
 			stop, _ := strconv.ParseInt(t[2], 10, 64)
 			var w []uint64
@@ -836,6 +1119,20 @@ func check(c core.Case, out []string) *core.Failure {
 }
 
 // ---------------------------------------------------------------- evidence helpers
+
+func sizeClass(n int) string {
+	switch {
+	case n < 8:
+		return "<8"
+	case n < 64:
+		return "8..63"
+	case n < 512:
+		return "64..511"
+	case n < 4096:
+		return "512..4095"
+	}
+	return ">=4096"
+}
 
 func crossesWord(list string) bool {
 	f := strings.Fields(strings.Trim(list, "[]"))
@@ -895,6 +1192,34 @@ func classify(c core.Case, out []string) []string {
 		}
 		r, _ := strconv.Atoi(t[1])
 		switch t[0] {
+		case "addn", "removen":
+			a, _ := strconv.Atoi(t[2])
+			d, _ := strconv.Atoi(t[3])
+			cnt, _ := strconv.Atoi(t[4])
+			if t[0] == "addn" {
+				if w := (a+(cnt-1)*d)/64 + 1; w > wl[r] {
+					wl[r] = w
+				}
+				if a == 0 && d == 1 && cnt == wl[r]*64 {
+					ls = append(ls, "addn fills every bit of the register")
+				}
+			}
+			ls = append(ls, fmt.Sprintf("%s of %s elements", t[0], sizeClass(cnt)))
+			for k := range itReg {
+				if itReg[k] == r {
+					mutatedSinceIter[k] = true
+				}
+			}
+		case "len", "blen":
+			if wl[r] >= 8 {
+				if wl[r]%8 == 0 {
+					ls = append(ls, "len with word count multiple of 8")
+				}
+				if o == strconv.Itoa(wl[r]*64) {
+					ls = append(ls, "len of a completely full set")
+				}
+				ls = append(ls, "len with "+sizeClass(wl[r])+" words")
+			}
 		case "add", "grow":
 			n, _ := strconv.Atoi(t[2])
 			w := n/64 + 1
@@ -939,6 +1264,9 @@ func classify(c core.Case, out []string) []string {
 			} else if wl[r] > wl[b] {
 				rel = ">"
 			}
+			if wl[r] >= 8 || wl[b] >= 8 {
+				ls = append(ls, fmt.Sprintf("bulk on %s x %s words", sizeClass(wl[r]), sizeClass(wl[b])))
+			}
 			if r == b {
 				ls = append(ls, t[0]+" self")
 			} else {
@@ -966,6 +1294,8 @@ func classify(c core.Case, out []string) []string {
 				ls = append(ls, "iterator-crosses-word")
 			}
 			lastNextVal[r] = v
+		case "string":
+			ls = append(ls, "string "+kinds[r])
 		case "iterall":
 			if crossesWord(o) {
 				ls = append(ls, "iterall-crosses-word")
